@@ -270,6 +270,7 @@ _BOTH = "name_old in font.keyset and name_new in font.keyset"
 
 contract(
     "ufo2ft.instantiator:swap_glyph_names",
+    portfolio=["z3-5.1", "z3-5.1/noext"],  # inv.step.done@L907: default z3 never, noext instantly (solver order only)
     props=["C19"],
     params={"font": Ref("SwFont"), "name_old": STR, "name_new": STR},
     globals={"_getNewGlyphFactory": _ref("c19.getNewGlyphFactory"), "dict": _ref("c19.copy_anchor", dict)},
